@@ -102,3 +102,9 @@ func TestClock(t *testing.T) { clockProp.Check(t) }
 var concChainsProp = h.Define(P, "concchains", chain.DrawConcChains, func(c *h.Ctx, cc chain.ConcChains) { chain.RunConcChains(c, cc, "C05") })
 
 func TestConcurrentChains(t *testing.T) { concChainsProp.Check(t) }
+
+// Argument presentation (chain/argorder.go): policies that look at the argument values by position, the same
+// argument set handed over in different orders / as one object / through the hook / after seal-unseal.
+var argOrderProp = h.Define(P, "argorder", chain.DrawArgOrder, func(c *h.Ctx, ac chain.ArgOrderCase) { chain.RunArgOrder(c, ac, "C05") })
+
+func TestArgOrder(t *testing.T) { argOrderProp.Check(t) }
